@@ -11,13 +11,26 @@
 #                               line(s) above name it; DESIGN.md §3/§5 need redoing
 #   (exit 2)                    the audit itself could not run
 #
-# Usage: tools/premise_audit.sh [--no-census]   (REPO=/path overrides /repo)
+# Usage: tools/premise_audit.sh [--no-census] [--no-probe] [--miri]
+#        env: REPO=/path (default /repo), VERIF_SEED (probe seed, default 1), PROBE_RUNS (default 2000),
+#             REPORT=/path.json (write an informational JSON report),
+#             MIRI_WORKLOADS (default 6), MIRI_SCHEDULES (default 16)   [--miri: ~2-3 min on 16 cores]
 set -u
 export CARGO_NET_OFFLINE=true
 REPO="${REPO:-/repo}"
 HERE="$(cd "$(dirname "$0")" && pwd)"
 CENSUS=1
-[ "${1:-}" = "--no-census" ] && CENSUS=0
+PROBE=1
+MIRI=0
+for a in "$@"; do
+  case "$a" in
+    --no-census) CENSUS=0 ;;
+    --no-probe)  PROBE=0 ;;
+    --miri)      MIRI=1 ;;
+  esac
+done
+# replay files of the dynamic probe (written only when it finds something)
+REPLAY_DIR="${REPLAY_DIR:-/var/tmp/premise_audit_replay}"
 
 # Scratch space outside /repo and /verif, removed on exit.
 SCRATCH="$(mktemp -d "${TMPDIR:-/var/tmp}/premise_audit.XXXXXX")" || { echo "audit error: mktemp failed"; exit 2; }
@@ -209,6 +222,8 @@ if [ $CENSUS -eq 1 ] && [ -x "$SCRATCH/target/release/premise_audit" ]; then
     tail -5 "$SCRATCH/census.out"
     die "census workload exited $rc (an input-level panic in the library is not a premise statement; see the message above)"
   fi
+  pc="$(sed -n 's/.*panicked_calls \([0-9]*\).*/\1/p' "$SCRATCH/census.out" | head -1)"
+  [ "${pc:-0}" = 0 ] || echo "  note: $pc census call(s) panicked inside the library on the census text — an input-level event, not a premise statement"
   python3 - "$SCRATCH/strace.out" >"$SCRATCH/census.res" <<'PY'
 import re, sys, collections
 inside, seen_begin, seen_end = False, False, False
@@ -251,6 +266,217 @@ PY
   done <"$SCRATCH/census.res"
 elif [ $CENSUS -eq 0 ]; then
   echo "  (syscall census skipped: --no-census)"
+fi
+
+# ---------------------------------------------------------------------------
+# 6. Dynamic probe: are the entry points functions of their arguments under
+#    seeded call histories on several caller threads, buffer reuse, thread
+#    restarts and panics injected from caller-supplied callbacks?  (probe.rs)
+PROBE_SEED="${VERIF_SEED:-1}"
+PROBE_RUNS="${PROBE_RUNS:-2000}"
+BIN="$SCRATCH/target/release/premise_audit"
+if [ $PROBE -eq 1 ] && [ -x "$BIN" ]; then
+  t0=$(date +%s.%N)
+  "$BIN" probe --seed "$PROBE_SEED" --runs "$PROBE_RUNS" >"$SCRATCH/hot.out" 2>"$SCRATCH/hot.err"; hrc=$?
+  export PROBE_HOT_S="$(echo "$(date +%s.%N) - $t0" | bc)"
+  if [ $hrc -eq 3 ]; then
+    # in-batch mismatch: try to reproduce it from the failing run alone in a fresh
+    # process, then drop steps greedily while a mismatch persists
+    run="$(sed -n 's/^HISTORY-DEPENDENT seed=[0-9]* run=\([0-9]*\) .*/\1/p' "$SCRATCH/hot.out" | head -1)"
+    nsteps="$(grep -c '^    \[' "$SCRATCH/hot.out")"
+    mkdir -p "$REPLAY_DIR"
+    replay="$REPLAY_DIR/probe_seed${PROBE_SEED}_run${run}.replay"
+    keep="$(seq -s, 0 $((nsteps-1)))"
+    if "$BIN" probe --seed "$PROBE_SEED" --runs "$PROBE_RUNS" --only-run "$run" --keep "$keep" >"$SCRATCH/min.out" 2>/dev/null; [ $? -eq 3 ]; then
+      i=$((nsteps-1))
+      while [ $i -ge 0 ]; do
+        try="$(echo "$keep" | tr ',' '\n' | grep -vx "$i" | paste -sd, -)"
+        if [ -n "$try" ] && "$BIN" probe --seed "$PROBE_SEED" --runs "$PROBE_RUNS" --only-run "$run" --keep "$try" >"$SCRATCH/try.out" 2>/dev/null; [ $? -eq 3 ]; then
+          keep="$try"; cp "$SCRATCH/try.out" "$SCRATCH/min.out"
+        fi
+        i=$((i-1))
+      done
+      { echo "# replay: premise_audit probe --seed $PROBE_SEED --runs $PROBE_RUNS --only-run $run --keep $keep"
+        cat "$SCRATCH/min.out"; } >"$replay"
+      sed 's/^/  /' "$SCRATCH/min.out"
+      note_changed "dynamic probe: a result depends on something other than the call's arguments (minimised to $(echo "$keep" | tr ',' '\n' | wc -l) steps; replay: $replay)"
+    else
+      { echo "# replay: premise_audit probe --seed $PROBE_SEED --runs $((run+1))   (needs the preceding runs' state; not minimised)"
+        cat "$SCRATCH/hot.out"; } >"$replay"
+      sed 's/^/  /' "$SCRATCH/hot.out" | head -60
+      note_changed "dynamic probe: a result depends on the history of earlier runs in the same process (replay: $replay)"
+    fi
+  elif [ $hrc -ne 0 ]; then
+    tail -5 "$SCRATCH/hot.out" "$SCRATCH/hot.err"
+    die "dynamic probe exited $hrc"
+  else
+    "$BIN" probe --seed "$PROBE_SEED" --runs "$PROBE_RUNS" --cold >"$SCRATCH/cold.out" 2>"$SCRATCH/cold.err" || { tail -5 "$SCRATCH/cold.err"; die "dynamic probe (cold pass) failed"; }
+    echo "  $(head -1 "$SCRATCH/hot.out")"
+    echo "  $(head -1 "$SCRATCH/cold.out")"
+    sed -n '/@@DIGEST@@/,$p' "$SCRATCH/hot.out"  >"$SCRATCH/hot.dig"
+    sed -n '/@@DIGEST@@/,$p' "$SCRATCH/cold.out" >"$SCRATCH/cold.dig"
+    [ "$(wc -l <"$SCRATCH/hot.dig")" -gt 100 ] || die "dynamic probe produced no digest"
+    # determinism of the probe itself: the same seed in another process must give the same bytes
+    "$BIN" probe --seed "$PROBE_SEED" --runs "$PROBE_RUNS" >"$SCRATCH/hot2.out" 2>/dev/null
+    "$BIN" probe --seed "$PROBE_SEED" --runs "$PROBE_RUNS" --cold >"$SCRATCH/cold2.out" 2>/dev/null
+    if cmp -s "$SCRATCH/hot.out" "$SCRATCH/hot2.out" && cmp -s "$SCRATCH/cold.out" "$SCRATCH/cold2.out"; then
+      note_ok "dynamic probe: both passes are byte-identical when repeated in a new process (one seed = one execution)"
+    else
+      note_changed "dynamic probe: the same seed gave different results in two processes — the tree now contains a nondeterminism source of its own (randomised hashing, addresses, time, ...); replays below may not reproduce"
+    fi
+    if cmp -s "$SCRATCH/hot.dig" "$SCRATCH/cold.dig"; then
+      note_ok "dynamic probe: every call result is a function of its arguments across threads, buffer reuse, restarts and callback panics, and equals the fresh-process reference pass"
+    else
+      ndis="$(diff "$SCRATCH/hot.dig" "$SCRATCH/cold.dig" | grep -c '^<')"
+      kh="$(diff "$SCRATCH/hot.dig" "$SCRATCH/cold.dig" | sed -n 's/^[<>] \([0-9a-f]\{16\}\) .*/\1/p' | head -1)"
+      P="$BIN probe --seed $PROBE_SEED --runs $PROBE_RUNS"
+      hash_of() { sed -n "s/^$kh \\([0-9a-f]\\{16\\}\\)\$/\\1/p" "$1" | head -1; }
+      hot_rh="$(hash_of "$SCRATCH/hot.dig")"; cold_rh="$(hash_of "$SCRATCH/cold.dig")"
+      # ground truth for that key: the lone call in a fresh process
+      $P --cold --cold-window "$kh:0" --dump-key "$kh" >"$SCRATCH/lone.out" 2>/dev/null
+      lone_rh="$(sed -n '/@@DIGEST@@/,/@@DUMP@@/p' "$SCRATCH/lone.out" | hash_of /dev/stdin)"
+      mkdir -p "$REPLAY_DIR"
+      replay="$REPLAY_DIR/probe_seed${PROBE_SEED}_key${kh}.replay"
+      minimised="not minimised; "
+      {
+        if [ -n "$lone_rh" ] && [ "$hot_rh" != "$lone_rh" ]; then
+          # the multi-thread history deviates from the lone call: replay its run alone, drop steps greedily
+          $P --dump-key "$kh" | sed -n '/@@DUMP@@/,$p' >"$SCRATCH/hot.dump"
+          run="$(sed -n 's/^first-at run \([0-9]*\) step \([0-9]*\) .*/\1/p' "$SCRATCH/hot.dump" | head -1)"
+          step="$(sed -n 's/^first-at run \([0-9]*\) step \([0-9]*\) .*/\2/p' "$SCRATCH/hot.dump" | head -1)"
+          keep="$(seq -s, 0 "$step")"
+          if $P --only-run "$run" --keep "$keep" --expect "$kh:$lone_rh" >"$SCRATCH/min.out" 2>/dev/null; [ $? -eq 3 ]; then
+            i=$((step-1))   # the last kept step is the call under test: never dropped
+            while [ $i -ge 0 ]; do
+              try="$(echo "$keep" | tr ',' '\n' | grep -vx "$i" | paste -sd, -)"
+              if $P --only-run "$run" --keep "$try" --expect "$kh:$lone_rh" >"$SCRATCH/try.out" 2>/dev/null; [ $? -eq 3 ]; then
+                keep="$try"; cp "$SCRATCH/try.out" "$SCRATCH/min.out"
+              fi
+              i=$((i-1))
+            done
+            minimised="minimised to $(echo "$keep" | tr ',' '\n' | wc -l) steps; "
+            echo "# replay: premise_audit probe --seed $PROBE_SEED --runs $PROBE_RUNS --only-run $run --keep $keep --expect $kh:$lone_rh"
+            cat "$SCRATCH/min.out"
+          else
+            echo "# replay: premise_audit probe --seed $PROBE_SEED --runs $PROBE_RUNS --dump-key $kh   (needs the preceding runs' state)"
+            cat "$SCRATCH/hot.dump"
+          fi
+        else
+          # the reference pass deviates from the lone call: shrink the window of preceding calls
+          n=1; found=""
+          while [ $n -le 65536 ]; do
+            $P --cold --cold-window "$kh:$n" >"$SCRATCH/win.out" 2>/dev/null
+            w_rh="$(sed -n '/@@DIGEST@@/,$p' "$SCRATCH/win.out" | hash_of /dev/stdin)"
+            if [ -n "$w_rh" ] && [ "$w_rh" != "$lone_rh" ]; then found=$n; break; fi
+            n=$((n*2))
+          done
+          if [ -n "$found" ]; then
+            lo=$((found/2)); hi=$found     # smallest window in (lo, hi] that still deviates
+            while [ $((hi-lo)) -gt 1 ]; do
+              mid=$(((lo+hi)/2))
+              $P --cold --cold-window "$kh:$mid" >"$SCRATCH/win.out" 2>/dev/null
+              w_rh="$(sed -n '/@@DIGEST@@/,$p' "$SCRATCH/win.out" | hash_of /dev/stdin)"
+              if [ -n "$w_rh" ] && [ "$w_rh" != "$lone_rh" ]; then hi=$mid; else lo=$mid; fi
+            done
+            minimised="minimised to $((hi+1)) consecutive single-thread calls; "
+            echo "# replay: premise_audit probe --seed $PROBE_SEED --runs $PROBE_RUNS --cold --cold-window $kh:$hi --dump-key $kh   vs   --cold-window $kh:0"
+            echo "## the $hi preceding call(s) of the reference order, then the key, in execution order:"
+            $P --cold --cold-window "$kh:$hi" --dump-all | sed -n '/@@DUMP@@/,$p'
+          else
+            echo "# replay: premise_audit probe --seed $PROBE_SEED --runs $PROBE_RUNS --cold --dump-key $kh   vs   --cold-window $kh:0"
+            $P --cold --dump-key "$kh" | sed -n '/@@DUMP@@/,$p'
+          fi
+        fi
+        echo "## the lone call in a fresh process:"
+        sed -n '/@@DUMP@@/,$p' "$SCRATCH/lone.out"
+      } >"$replay" 2>/dev/null
+      sed 's/^/  /' "$replay" | cut -c1-400
+      note_changed "dynamic probe: the multi-thread history and the fresh-process reference pass disagree on $ndis key(s) (${minimised}replay: $replay)"
+    fi
+  fi
+elif [ $PROBE -eq 0 ]; then
+  echo "  (dynamic probe skipped: --no-probe)"
+fi
+
+# ---------------------------------------------------------------------------
+# 7. (--miri) Interleavings INSIDE calls: a few caller threads free-run
+#    overlapping calls on shared buffers under Miri, whose scheduler preempts at
+#    any instruction and is a function of -Zmiri-seed. Also reports data races/UB.
+if [ $MIRI -eq 1 ]; then
+  cargo +nightly miri --version >/dev/null 2>&1 || die "--miri: cargo +nightly miri is not available"
+  W="${MIRI_WORKLOADS:-6}"; K="${MIRI_SCHEDULES:-16}"; s0="${VERIF_SEED:-1}"
+  miri_bad=0; miri_ok=0
+  for ws in $(seq "$s0" $((s0+W-1))); do
+    ( cd "$SCRATCH/crate" && MIRIFLAGS="-Zmiri-many-seeds=0..$K -Zmiri-preemption-rate=0.05" CARGO_TARGET_DIR="$SCRATCH/miri_target" \
+        cargo +nightly miri run --offline -- probe --parallel --seed "$ws" ) >"$SCRATCH/miri.$ws.log" 2>&1
+    mrc=$?
+    miri_ok=$((miri_ok + $(grep -c '^parallel pass' "$SCRATCH/miri.$ws.log")))
+    if [ $mrc -ne 0 ]; then
+      if grep -q 'SCHEDULE-DEPENDENT\|Undefined Behavior\|Data race' "$SCRATCH/miri.$ws.log"; then
+        fs="$(sed -n 's/^FAILING SEED: \([0-9]*\)/\1/p' "$SCRATCH/miri.$ws.log" | head -1)"
+        mkdir -p "$REPLAY_DIR"; replay="$REPLAY_DIR/miri_workload${ws}_schedule${fs:-unknown}.replay"
+        { echo "# replay: MIRIFLAGS=\"-Zmiri-seed=${fs:-?} -Zmiri-preemption-rate=0.05\" cargo +nightly miri run --offline -- probe --parallel --seed $ws   (in a copy of tools/premise_audit pointed at the tree)"
+          grep -A4 'SCHEDULE-DEPENDENT\|Undefined Behavior\|Data race' "$SCRATCH/miri.$ws.log" | head -40; } >"$replay"
+        sed 's/^/  /' "$replay" | cut -c1-300
+        note_changed "miri pass: a result depends on how caller threads interleave inside calls, or the interpreter reported a race/UB (workload seed $ws, scheduler seed ${fs:-?}; replay: $replay)"
+        miri_bad=1; break
+      else
+        tail -15 "$SCRATCH/miri.$ws.log"; die "--miri: interpreter run failed for workload seed $ws"
+      fi
+    fi
+  done
+  [ $miri_bad -eq 0 ] && note_ok "miri pass: $miri_ok executions ($W workloads x $K scheduler seeds, preemption inside calls): every concurrent result equals the single-thread result; no data race or UB reported"
+fi
+
+# ---------------------------------------------------------------------------
+# Optional machine-readable report (REPORT=/path/file.json): what this run did.
+# Informational; it is NOT an evidence file (no property is claimed).
+if [ -n "${REPORT:-}" ]; then
+  python3 - "$REPORT" "$REPO" "$changed" "$PROBE_SEED" "$PROBE_RUNS" "$SCRATCH" "$SECONDS" "$MIRI" "${miri_ok:-0}" <<'PY'
+import json, re, sys, os, subprocess
+out, repo, changed, seed, runs, scratch, secs, miri, miri_ok = sys.argv[1:10]
+def first(path):
+    try: return open(path).readline().strip()
+    except OSError: return ""
+hot = first(os.path.join(scratch, "hot.out"))
+stats = {k: int(v) for k, v in re.findall(r'(\w+) (\d+)', hot) if k not in ("seed",)}
+census = ""
+try:
+    for l in open(os.path.join(scratch, "census.res")):
+        if l.startswith("INFO"): census = l.split("\t", 1)[1].strip()
+except OSError: pass
+head = subprocess.run(["git", "-C", repo, "rev-parse", "--short", "HEAD"], capture_output=True, text=True).stdout.strip()
+dirty = bool(subprocess.run(["git", "-C", repo, "status", "--porcelain", "--", "src", "Cargo.toml"], capture_output=True, text=True).stdout.strip())
+rep = {
+  "tool": "tools/premise_audit.sh (informational; decides no property; never prints VIOLATION)",
+  "tree": {"path": repo, "head": head, "src_modified": dirty},
+  "verdict": "PREMISE-CHANGED" if changed != "0" else "PREMISES-HOLD",
+  "wall_s": int(secs),
+  "syscall_census": census,
+  "dynamic_probe": {
+    "seed": int(seed), "runs": int(runs),
+    "real_code": "every call goes into the textwrap library built from the tree above (release profile); nothing is stubbed",
+    "harness_only": "caller threads, their reusable buffers, the one-call-at-a-time scheduler, the callbacks and the user Fragment that raise the injected panics",
+    "scheduler": "one PRNG (splitmix64) seeded from VERIF_SEED draws texts, calls, which thread makes each call, where its buffer lives, restarts and fault positions; threads are real and are released one call at a time",
+    "counts": stats,
+    "events_injected": {
+      "caller_buffer_reused_with_new_contents": stats.get("buffer_reuses_new_contents"),
+      "same_shared_buffer_used_from_threads": stats.get("shared_buffer_calls"),
+      "thread_exit_and_respawn": stats.get("worker_restarts"),
+      "callback_or_fragment_panic_armed": stats.get("faults_armed"),
+      "callback_or_fragment_panic_fired_and_caught": stats.get("faults_fired"),
+      "calls_made_on_a_thread_after_it_caught_a_panic": stats.get("calls_after_fault_same_thread"),
+    },
+    "interleavings": {"distinct_call_orders": stats.get("distinct_call_orders"),
+                      "library_internal_scheduling_points": 0,
+                      "note": "the library contains no synchronisation, I/O or timer call, so whole calls are the only unit a scheduler can order"},
+    "runs_per_hour_at_this_rate": int(int(runs) * 3600 / max(0.05, float(os.environ.get("PROBE_HOT_S", "0.3")))),
+  },
+  "miri_pass": ({"executions": int(miri_ok)} if miri == "1" else "not run (pass --miri)"),
+}
+os.makedirs(os.path.dirname(out) or ".", exist_ok=True)
+json.dump(rep, open(out, "w"), indent=1)
+PY
 fi
 
 # ---------------------------------------------------------------------------
